@@ -158,6 +158,12 @@ def run(ctx) -> Result:
         sc = {"jobs": jobs, "converter": conv, "policy": {"kind": "const", "us": 0}, "horizon_s": 6.0}
         r = vtime.run(lambda loop, s=sc: c02.run_scenario(s), budget=30_000_000)
         c02.check_run(r, model, res, f"eager-prefixes-{conv}")
+    for kind in ("redis", "rabbit"):     # the same eager responses through the Redis / RabbitMQ brokers (fake servers)
+        jobs = eager_jobs(Rng(seed, f"c16/eager/{kind}"), 120 if deep else 50)
+        sc = {"jobs": jobs, "converter": "basic", "policy": {"kind": "const", "us": 0}, "horizon_s": 8.0, "broker": kind}
+        r = vtime.run(lambda loop, s=sc: c02.run_scenario(s), budget=80_000_000)
+        c02.check_run(r, model, res, f"eager-prefixes-{kind}")
+        res.dist[f"broker:{kind}"] += len(jobs)
     return res
 
 
